@@ -153,7 +153,8 @@ def regenerate_hintsgen() -> tuple[bool, str]:
     return True, ""
 
 
-GEN_PARTS = {"C02": ("trig", "TrigGen"), "C03": ("fetch", "FetchGen"), "C12": ("conn", "ConnGen")}
+GEN_PARTS = {"C02": ("trig", "TrigGen"), "C03": ("fetch", "FetchGen"), "C12": ("conn", "ConnGen"), "C16": ("for", "ForGen")}
+GEN_TOOL = {"for": ("py2gallina_for.py", "pyiron_workflow/nodes/for_loop.py")}     # default: py2gallina_chan.py on channels.py
 
 
 def generated_tie(prop: str) -> dict:
@@ -163,14 +164,14 @@ def generated_tie(prop: str) -> dict:
     applies=False: the source has left the translator's language (reason given) -- the correspondence tie remains.
     ok=False: the regenerated methods are no longer proved equal to the model."""
     key, gen = GEN_PARTS[prop]
+    tool, source = GEN_TOOL.get(key, ("py2gallina_chan.py", "pyiron_workflow/channels.py"))
     d = BUILD / "gen" / f"{prop}_{os.getpid()}"
     shutil.rmtree(d, ignore_errors=True)
     d.mkdir(parents=True)
-    tie = {"file": f"coq/gen/{prop}gen.v", "generated": f"{gen}.v from {REPO}/pyiron_workflow/channels.py", "applies": False,
+    tie = {"file": f"coq/gen/{prop}gen.v", "generated": f"{gen}.v from {REPO}/{source} by tools/{tool}", "applies": False,
            "ok": True, "theorems": [], "closed": 0, "error": None}
     try:
-        rc, log = sh([sys.executable, str(VERIF / "tools" / "py2gallina_chan.py"),
-                      str(REPO / "pyiron_workflow" / "channels.py"), str(d)])
+        rc, log = sh([sys.executable, str(VERIF / "tools" / tool), str(REPO / source), str(d)])
         try:
             status = json.loads(log.strip().splitlines()[-1]).get(key, "translator gave no status")
         except Exception:      # noqa: BLE001
@@ -198,7 +199,7 @@ def generated_tie(prop: str) -> dict:
         tie["closed"] = log.count("Closed under the global context") if rc == 0 else 0
         if rc != 0 or tie["closed"] < len(thms) or "Axioms:" in log:
             tie["ok"] = False
-            tie["error"] = ("the methods regenerated from channels.py are no longer proved equal to the model: "
+            tie["error"] = ("the code regenerated from the source is no longer proved equal to the model: "
                             + re.sub(re.escape(str(d)), "<gen>", log[-2500:]))
             tie["generated_text"] = (d / f"{gen}.v").read_text()[-3000:]
         return tie
